@@ -879,3 +879,131 @@ func TestC12_constructor_params_cloned(t *testing.T) {
 		c.End()
 	})
 }
+
+// ---------------------------------------------------------------------------------------------
+// (g) constructors that "allocate a new vector/matrix" from index and value slices leave the slices as
+// they were and do not keep them: two containers built from one shared index slice are both right
+
+func TestC12_slice_arguments_unchanged(t *testing.T) {
+	kinds := []string{"NewSparseConstFloat64Vector", "NewSparseFloat64Vector", "NewSparseReal64Vector", "NewSparseConstFloat32Vector", "NewSparseConstIntVector", "NewSparseFloat64Matrix"}
+	rapid.Check(t, func(t *rapid.T) {
+		kind := kinds[rapid.IntRange(0, len(kinds)-1).Draw(t, "constructor")]
+		n := rapid.IntRange(1, 9).Draw(t, "n")
+		k := rapid.IntRange(0, n).Draw(t, "entries")
+		perm := rapid.Permutation(seq(n)).Draw(t, "indices")[:k]
+		vals1 := make([]float64, k)
+		vals2 := make([]float64, k)
+		for i := range vals1 {
+			// exact zeros are dropped by the constructors
+			vals1[i] = float64(rapid.IntRange(-2, 3).Draw(t, fmt.Sprintf("v1[%d]", i)))
+			vals2[i] = float64(rapid.IntRange(1, 4).Draw(t, fmt.Sprintf("v2[%d]", i)))
+		}
+		c := obs.Begin("slice_arguments_unchanged", "%s n=%d indices=%v values=%v then values=%v with the same index slice", kind, n, perm, vals1, vals2)
+		c.Classf("constructor=%s", kind)
+		zero := false
+		for _, v := range vals1 {
+			if v == 0 {
+				zero = true
+			}
+		}
+		if zero {
+			c.Class("a zero value among the arguments")
+		}
+		sorted := true
+		for i := 1; i < len(perm); i++ {
+			if perm[i] < perm[i-1] {
+				sorted = false
+			}
+		}
+		if !sorted {
+			c.Class("indices not sorted")
+		}
+		c.NT(k >= 2)
+		idx := append([]int{}, perm...)
+		idx0 := append([]int{}, perm...)
+		build := func(values []float64) (func(i int) float64, []float64) {
+			held := append([]float64{}, values...)
+			switch kind {
+			case "NewSparseConstFloat64Vector":
+				v := NewSparseConstFloat64Vector(idx, held, n)
+				return func(i int) float64 { return v.Float64At(i) }, held
+			case "NewSparseFloat64Vector":
+				v := NewSparseFloat64Vector(idx, held, n)
+				return func(i int) float64 { return v.Float64At(i) }, held
+			case "NewSparseReal64Vector":
+				v := NewSparseReal64Vector(idx, held, n)
+				return func(i int) float64 { return v.Float64At(i) }, held
+			case "NewSparseConstFloat32Vector":
+				h32 := make([]float32, len(held))
+				for i := range held {
+					h32[i] = float32(held[i])
+				}
+				v := NewSparseConstFloat32Vector(idx, h32, n)
+				for i := range held {
+					defer func(i int) { held[i] = float64(h32[i]) }(i)
+				}
+				return func(i int) float64 { return float64(v.Float32At(i)) }, held
+			case "NewSparseConstIntVector":
+				hi := make([]int, len(held))
+				for i := range held {
+					hi[i] = int(held[i])
+				}
+				v := NewSparseConstIntVector(idx, hi, n)
+				for i := range held {
+					defer func(i int) { held[i] = float64(hi[i]) }(i)
+				}
+				return func(i int) float64 { return float64(v.IntAt(i)) }, held
+			default:
+				cols := make([]int, len(idx))
+				m := NewSparseFloat64Matrix(idx, cols, held, n, 1)
+				return func(i int) float64 { return m.Float64At(i, 0) }, held
+			}
+		}
+		check := func(at func(int) float64, values []float64, which string) {
+			want := make([]float64, n)
+			for i, j := range idx0 {
+				want[j] = values[i]
+			}
+			for i := 0; i < n; i++ {
+				if at(i) != want[i] {
+					t.Fatalf("%s: the %s container holds %v at %d, the arguments say %v", c.Desc(), which, at(i), i, want[i])
+				}
+			}
+		}
+		at1, held1 := build(vals1)
+		for i := range idx {
+			if idx[i] != idx0[i] {
+				t.Fatalf("%s: the constructor changed the caller's index slice from %v to %v", c.Desc(), idx0, idx)
+			}
+		}
+		for i := range held1 {
+			if held1[i] != vals1[i] {
+				t.Fatalf("%s: the constructor changed the caller's value slice from %v to %v", c.Desc(), vals1, held1)
+			}
+		}
+		check(at1, vals1, "first")
+		at2, _ := build(vals2)
+		check(at2, vals2, "second")
+		// the first container does not live in the caller's slices
+		check(at1, vals1, "first (after the second was built)")
+		for i := range idx {
+			idx[i] = 0
+		}
+		check(at1, vals1, "first (after the index slice was overwritten)")
+		c.End()
+	})
+}
+
+func seq(n int) []int {
+	r := make([]int, n)
+	for i := range r {
+		r[i] = i
+	}
+	return r
+}
+
+func TestKF_sparse_const_constructor_mutates_arguments(t *testing.T) {
+	idx := []int{0, 1, 2}
+	NewSparseConstFloat64Vector(idx, []float64{1, 0, 1}, 3)
+	obs.KFStatus("C12/sparse-const-vector-constructor-rewrites-its-index-argument", !(idx[0] == 0 && idx[1] == 1 && idx[2] == 2), fmt.Sprintf("index slice after the call: %v", idx))
+}
